@@ -37,6 +37,10 @@ type c08Pkg struct {
 	// "-" = it does not import it)
 	syncName map[*ast.File]string
 	locks    map[string]string // field / variable name -> description
+	// per function: a top-level `defer <lock>.Release()` has been seen (every later return releases
+	// first, and so does the end of the body); we are directly inside a switch (an unlabelled
+	// `break` would leave the switch, which the skeleton language cannot say)
+	deferRel, inSwitch bool
 }
 
 type c08ClientErr struct{ msg string }
@@ -187,6 +191,39 @@ func (p *c08Pkg) stmts(f *ast.File, ss []ast.Stmt) string {
 	return c08Block(out)
 }
 
+// body: the statements of a client function. A top-level `defer <lock>.Release()` is understood
+// exactly: from there on every `return` is `[.release, .ret]` and `.release` ends the body.
+func (p *c08Pkg) body(f *ast.File, fd *ast.FuncDecl) string {
+	p.deferRel, p.inSwitch = false, false
+	var out []string
+	for _, s := range fd.Body.List {
+		if d, ok := s.(*ast.DeferStmt); ok {
+			if m, _ := p.lockCall(f, d.Call); m == "Release" && !p.deferRel {
+				p.deferRel = true
+				continue
+			}
+		}
+		if t := p.stmt(f, s); t != ".skip" {
+			out = append(out, t)
+		}
+	}
+	if p.deferRel {
+		out = append(out, ".release")
+		p.deferRel = false
+	}
+	if len(out) == 0 {
+		return ".skip"
+	}
+	return c08Block(out)
+}
+
+func (p *c08Pkg) ret() string {
+	if p.deferRel {
+		return "(.block [.release, .ret])"
+	}
+	return ".ret"
+}
+
 func (p *c08Pkg) stmt(f *ast.File, s ast.Stmt) string {
 	switch t := s.(type) {
 	case nil:
@@ -204,7 +241,7 @@ func (p *c08Pkg) stmt(f *ast.File, s ast.Stmt) string {
 		p.pure(f, t.X, "an expression")
 		if c, ok := t.X.(*ast.CallExpr); ok {
 			if id, ok := c.Fun.(*ast.Ident); ok && id.Name == "panic" {
-				return ".ret" // leaves the function: the lock must not be held
+				return p.ret() // leaves the function: the lock must not be held
 			}
 		}
 		return ".skip"
@@ -233,14 +270,20 @@ func (p *c08Pkg) stmt(f *ast.File, s ast.Stmt) string {
 		if t.Post != nil {
 			p.pure(f, t.Post, "a loop post statement")
 		}
+		saved := p.inSwitch
+		p.inSwitch = false
 		body := p.stmts(f, t.Body.List)
+		p.inSwitch = saved
 		if body == ".skip" {
 			return ".skip"
 		}
 		return "(.loop .skip " + body + " .skip)"
 	case *ast.RangeStmt:
 		p.pure(f, t.X, "a range expression")
+		saved := p.inSwitch
+		p.inSwitch = false
 		body := p.stmts(f, t.Body.List)
+		p.inSwitch = saved
 		if body == ".skip" {
 			return ".skip"
 		}
@@ -249,9 +292,12 @@ func (p *c08Pkg) stmt(f *ast.File, s ast.Stmt) string {
 		for _, r := range t.Results {
 			p.pure(f, r, "a return value")
 		}
-		return ".ret"
+		return p.ret()
 	case *ast.BranchStmt:
 		if t.Label == nil && t.Tok == token.BREAK {
+			if p.inSwitch {
+				c08Fail(p.fset, s, "unlabelled break inside a switch in a lock client is not supported")
+			}
 			return ".brk"
 		}
 		if t.Label == nil && t.Tok == token.CONTINUE {
@@ -261,8 +307,46 @@ func (p *c08Pkg) stmt(f *ast.File, s ast.Stmt) string {
 	case *ast.AssignStmt, *ast.DeclStmt, *ast.IncDecStmt, *ast.EmptyStmt, *ast.SendStmt:
 		p.pure(f, s, "an assignment or declaration")
 		return ".skip"
+	case *ast.SwitchStmt:
+		// an expression switch without fallthrough = an if/else chain over its arms, default last
+		if t.Init != nil {
+			p.pure(f, t.Init, "a switch initialiser")
+		}
+		if t.Tag != nil {
+			p.pure(f, t.Tag, "a switch tag")
+		}
+		saved := p.inSwitch
+		p.inSwitch = true
+		var arms []string
+		def := ".skip"
+		for _, c := range t.Body.List {
+			cc := c.(*ast.CaseClause)
+			for _, e := range cc.List {
+				p.pure(f, e, "a case expression")
+			}
+			for _, st := range cc.Body {
+				if b, ok := st.(*ast.BranchStmt); ok && b.Tok == token.FALLTHROUGH {
+					c08Fail(p.fset, st, "fallthrough in a lock client is not supported")
+				}
+			}
+			b := p.stmts(f, cc.Body)
+			if cc.List == nil {
+				def = b
+			} else {
+				arms = append(arms, b)
+			}
+		}
+		p.inSwitch = saved
+		res := def
+		for i := len(arms) - 1; i >= 0; i-- {
+			if arms[i] == ".skip" && res == ".skip" {
+				continue
+			}
+			res = "(.ite .skip " + arms[i] + " " + res + ")"
+		}
+		return res
 	default:
-		// switch, select, labelled statement, defer, go: only if they can neither touch the lock
+		// type switch, select, labelled statement, defer, go: only if they can neither touch the lock
 		// nor leave the function / a loop
 		if p.hasLockCall(f, s) || c08HasTransfer(s) {
 			c08Fail(p.fset, s, "%T with lock calls or control transfer in a lock client is not supported", s)
@@ -436,9 +520,17 @@ func c08Clients(repo string) (text string, err error) {
 					if p.hasLockCall(f, t) {
 						c08Fail(fset, t, "lock call inside a function literal")
 					}
-				case *ast.DeferStmt, *ast.GoStmt:
+				case *ast.GoStmt:
 					if p.hasLockCall(f, t) {
-						c08Fail(fset, t, "lock call in defer / go")
+						c08Fail(fset, t, "lock call in a go statement")
+					}
+				case *ast.DeferStmt:
+					topLevel := false
+					for _, st := range fd.Body.List {
+						topLevel = topLevel || st == ast.Stmt(t)
+					}
+					if m, _ := p.lockCall(f, t.Call); p.hasLockCall(f, t) && !(topLevel && m == "Release") {
+						c08Fail(fset, t, "lock call in defer (only a top-level `defer <lock>.Release()` is understood)")
 					}
 				case *ast.CallExpr:
 					if _, s := p.lockCall(f, t); s != nil {
@@ -451,7 +543,7 @@ func c08Clients(repo string) (text string, err error) {
 				}
 				return true
 			})
-			clients = append(clients, fmt.Sprintf("(%q, %s)", c08FuncName(rel, fd), p.stmts(f, fd.Body.List)))
+			clients = append(clients, fmt.Sprintf("(%q, %s)", c08FuncName(rel, fd), p.body(f, fd)))
 		}
 		// 3. any other use of a lock field (copy, address taken, passed on) escapes the analysis
 		for _, f := range p.files {
